@@ -212,6 +212,86 @@ func TestC18(t *testing.T) {
 		gen.Exhaustive("every single bit of RTMR0-3 of the re-signed sample quote", step == 1)
 	})
 
+	// whole-register replacements of each measured RTMR (re-signed): the values a "never extended" / wrapped /
+	// mixed-up register would show
+	gen.Direct(t, "rtmr-whole-values", func(t *testing.T) {
+		w := mkWorld(gen.Seed() + 3)
+		w.Build()
+		ff := bytes.Repeat([]byte{0xff}, 48)
+		for r := 0; r < 4; r++ {
+			if !measured[r] {
+				continue
+			}
+			vals := map[string][]byte{"all-zero": make([]byte, 48), "all-ones": ff, "first-byte-only": append([]byte{w.Q.Rtmr[r][0]}, make([]byte, 47)...),
+				"value-of-next-register": append([]byte{}, w.Q.Rtmr[(r+1)%4][:]...), "value-of-previous-register": append([]byte{}, w.Q.Rtmr[(r+3)%4][:]...),
+				"halves-swapped": append(append([]byte{}, w.Q.Rtmr[r][24:]...), w.Q.Rtmr[r][:24]...), "byte-reversed": func() []byte {
+					b := make([]byte, 48)
+					for i := range b {
+						b[i] = w.Q.Rtmr[r][47-i]
+					}
+					return b
+				}()}
+			for name, val := range vals {
+				if bytes.Equal(val, w.Q.Rtmr[r][:]) {
+					continue
+				}
+				q := w.Q.Clone()
+				copy(q.Rtmr[r][:], val)
+				gen.SignBody(q, w.AttKey)
+				st, v := parse(w, q.Encode(), nonce, nil, nil)
+				desc := fmt.Sprintf("RTMR%d replaced by %s (re-signed)", r, name)
+				gen.NonTrivial("rtmr-whole", r, name)
+				gen.Sample("rtmr-whole", desc)
+				if !expectBlocked(t, fmt.Sprintf("rtmr%d-%s", r, name), desc, st, v) {
+					return
+				}
+			}
+			// two measured registers exchanged
+			for r2 := r + 1; r2 < 4; r2++ {
+				if !measured[r2] || w.Q.Rtmr[r] == w.Q.Rtmr[r2] {
+					continue
+				}
+				q := w.Q.Clone()
+				q.Rtmr[r], q.Rtmr[r2] = q.Rtmr[r2], q.Rtmr[r]
+				gen.SignBody(q, w.AttKey)
+				st, v := parse(w, q.Encode(), nonce, nil, nil)
+				gen.NonTrivial("rtmr-swap", r, r2)
+				if !expectBlocked(t, "rtmr-registers-exchanged", fmt.Sprintf("RTMR%d and RTMR%d exchanged (re-signed)", r, r2), st, v) {
+					return
+				}
+			}
+		}
+	})
+
+	// a quote MESSAGE can carry values wider than the signed 16-bit fields: the verification gate must judge the signed value
+	gen.Direct(t, "message-wider-than-wire", func(t *testing.T) {
+		for i, d := range []uint32{1 << 16, 1 << 17, 5 << 16, 1 << 31} {
+			w := mkWorld(gen.Seed() + 20 + uint64(i))
+			w.Q.QeIsvSvn = uint16(i)
+			w.HonestCollateral()
+			// the signed ISVSVN selects an OutOfDate QE level; the widened value would select the UpToDate one
+			w.QeID.Levels = []gen.QeLevel{{Isvsvn: 1000, Status: "UpToDate"}, {Isvsvn: 0, Status: "OutOfDate"}}
+			w.Build()
+			m := w.Q.ToProto()
+			m.SignedData.CertificationData.QeReportCertificationData.QeReport.IsvSvn += d
+			opts := rtmr.TdxDefaultOpts(nonce)
+			opts.Verification = w.Options(gen.LvlColl, w.NewGetter(), nil)
+			var st any
+			gen.Eval()
+			v := gen.Call(func() error {
+				s, err := rtmr.ParseCcelWithTdQuote(ccel, table, m, &opts)
+				if s != nil {
+					st = s
+				}
+				return err
+			})
+			gen.NonTrivial("msgwidth", i, d)
+			if !expectBlocked(t, "verification-fault:qe-level-out-of-date-behind-widened-isvsvn", fmt.Sprintf("signed QE ISVSVN %d (OutOfDate level), message carries %d", i, uint32(i)+d), st, v) {
+				return
+			}
+		}
+	})
+
 	gen.Direct(t, "gates", func(t *testing.T) {
 		w := mkWorld(gen.Seed() + 10)
 		w.Build()
